@@ -31,7 +31,19 @@ def run(R):
                   "no axioms: every theorem of Properties/C19.v is closed under the global context"]
     R.assume += ["KV store and protobuf round trip of NetworkProperties are faithful (observed through GetNetworkProperties in the differential run)",
                  "uint64 values are modelled as Z restricted by the harness to [0, 2^64)"]
-    R.gen("gen_netprops", "NetProps.v")
+    gen_ok = R.gen("gen_netprops", "NetProps.v")
+    if not gen_ok:
+        # The translator rejects the tree (code outside its fragment): the obligation is broken.  To
+        # still search for a concrete failing input, the model generated for the last reviewed tree
+        # (checks/c19_lastgood_NetProps.v.txt, refreshed whenever the check passes on /repo) stands
+        # in: the real code of THIS tree is then run against it and against the spec checker.
+        import shutil, vlib
+        snap = os.path.join(os.path.dirname(os.path.abspath(__file__)), "c19_lastgood_NetProps.v.txt")
+        dst = os.path.join(vlib.COQ, "Gen", "NetProps.v")
+        if os.path.exists(snap):
+            os.makedirs(os.path.dirname(dst), exist_ok=True)
+            shutil.copy(snap, dst)
+            R.note("translator rejected the tree: searching for a failing input with the last reviewed generated model")
     R.coq_files(FILES)
     R.coq_property()
     R.audit()
@@ -59,6 +71,13 @@ def run(R):
                     R.violation(sig_of(cases2[idx], cl), "real code violates clause(s) %s on %s" % (cl, json.dumps(cases2[idx])), cases2[idx])
                 if viol2:
                     break
+    if gen_ok and not R.broken and not R.violations:
+        import shutil, vlib
+        if not vlib.ALT:
+            src = os.path.join(vlib.COQ, "Gen", "NetProps.v")
+            snap = os.path.join(os.path.dirname(os.path.abspath(__file__)), "c19_lastgood_NetProps.v.txt")
+            if os.path.exists(src) and (not os.path.exists(snap) or open(src).read() != open(snap).read()):
+                shutil.copy(src, snap)
     R.finish(level="proof", technique="Coq proof (single requests and arbitrary histories of writes by every path) over a model regenerated from keeper.go by a translator + differential run of the real keeper, msg server, proposal handler, genesis import and of whole histories through ABCI (DeliverTx, proposal submit/vote/EndBlocker); spec checker vm_computed on real observations",
              extra={"evaluations": total})
 
